@@ -452,6 +452,149 @@ def gated_module(gdocs):
     return "\n".join(out) + "\n"
 
 
+RUST_RESERVED = {"abstract", "as", "async", "await", "become", "box", "break", "const", "continue", "crate", "do", "dyn", "else", "enum", "extern", "false",
+                 "final", "fn", "for", "if", "impl", "in", "let", "loop", "macro", "match", "mod", "move", "mut", "override", "priv", "pub", "ref", "return",
+                 "Self", "self", "static", "struct", "super", "trait", "true", "try", "type", "typeof", "unsafe", "unsized", "use", "virtual", "where", "while", "yield"}
+
+
+def make_varname(tag):
+    n = tag.lower()
+    return "var_" + n if n in RUST_RESERVED else n
+
+
+def ucname_to_typename(name):
+    if any(c.islower() for c in name):
+        return name
+    out, cap = [], True
+    for c in name:
+        if c == "_":
+            cap = True
+            continue
+        out.append(c if cap else c.lower())
+        cap = False
+    return "".join(out)
+
+
+def _literal(value, ty, enums):
+    """Rust expression for the value token `value` of DSL type ty"""
+    if ty == "ident":
+        return rust_str(value)
+    if ty == "string":
+        return rust_str(value[1:-1])
+    if ty in ("float", "double"):
+        v = value if any(c in value for c in ".eE") else value + ".0"
+        return v + "f64"
+    if ty in enums:
+        return "%s::%s" % (ty, ucname_to_typename(value))
+    return value            # integer literal, decimal or hex, possibly negative
+
+
+def readback_and_unknown(dsl_text):
+    """C04: for every (parent, element) pair a document in specified form together with a Rust expression that reads every
+    parameter of the element from the model *by the field names of the reference grammar* and compares it with the value in
+    the document. C07: the same document with an unknown keyword directly in front of the element.
+    -> (rust module text, info)"""
+    enums, blocks = parse_dsl(dsl_text)
+    parents = {}
+    for tag, b in blocks.items():
+        for f in b.fields:
+            if isinstance(f, Ref):
+                for n in f.names:
+                    parents.setdefault(n, [])
+                    if tag not in parents[n]:
+                        parents[n].append(tag)
+
+    def step(parent, child):
+        pb = blocks[parent]
+        ref = next(f for f in pb.fields if isinstance(f, Ref) and child in f.names)
+        field = make_varname(child)
+        if ref.mult == "!":
+            return "." + field
+        if ref.mult == "?":
+            return "." + field + ".as_ref().unwrap()"
+        return "." + field + "[0]"
+
+    arms, unk, skipped = [], [], 0
+    for ptag in sorted(blocks):
+        if ptag == "A2L_FILE":
+            continue
+        pb = blocks[ptag]
+        for f in pb.fields:
+            if not isinstance(f, Ref):
+                continue
+            tag = f.names[0]
+            if tag not in blocks or tag in ("A2ML", "IF_DATA"):
+                continue
+            b = blocks[tag]
+            version = (1, 71)
+            if f.vup and version > f.vup:
+                version = f.vup
+            g = FocusGen(enums, blocks, version, parents)
+            path = g.path_to(ptag)
+            if path is None:
+                skipped += 1
+                continue
+            # element head with known values
+            vals = []
+            conds = []
+            for x in b.fields:
+                if isinstance(x, Param):
+                    if x.dim:
+                        vs = [g.value(x.ty, x.name) for _ in range(x.dim)]
+                        vals += vs
+                        conds.append("e.%s == [%s]" % (x.name, ", ".join(_literal(v, x.ty, enums) for v in vs)))
+                    else:
+                        v = g.value(x.ty, x.name)
+                        vals.append(v)
+                        conds.append("e.%s == %s" % (x.name, _literal(v, x.ty, enums)))
+                elif isinstance(x, Seq):
+                    vs = [g.value(p.ty, p.name) for p in x.params]
+                    vals += vs
+                    if len(x.params) == 1:
+                        conds.append("e.%s.len() == 1 && e.%s[0] == %s" % (x.name, x.name, _literal(vs[0], x.params[0].ty, enums)))
+                    else:
+                        conds.append("e.%s.len() == 1" % x.name)
+                        for p, v in zip(x.params, vs):
+                            conds.append("e.%s[0].%s == %s" % (x.name, p.name, _literal(v, p.ty, enums)))
+            pad = " " * (2 * len(path))
+            req = "".join(g.render(r, 2 * (len(path) + 1)) for r in g.required_children(tag))
+            leaf = pad + ("/begin " if b.is_block else "") + " ".join([tag] + vals) + "\n" + req
+            if b.is_block:
+                leaf += pad + "/end " + tag + "\n"
+            doc = g.document(path, leaf)
+            nav = "file.project"
+            chain = path + [tag]
+            for a, c in zip(chain, chain[1:]):
+                nav += step(a, c)
+            cond = " && ".join(conds) if conds else "true"
+            arms.append((doc, nav, cond, tag, ptag))
+            if not any(isinstance(x, Seq) for x in pb.fields):
+                g2_leaf = pad + "FROBNICATE 1 \"x\" some_identifier\n" + leaf
+                # the ancestors must be rendered with the same values: re-render with a generator in the same state is not possible,
+                # so the unknown element is spliced textually in front of the element's first line
+                first_line = leaf.split("\n", 1)[0]
+                idx = doc.index(first_line)
+                unk.append((doc[:idx] + pad + "FROBNICATE 1 \"x\" some_identifier\n" + doc[idx:], doc, tag, ptag))
+    out = ["use crate::specification::*;", "use crate::A2lObjectName;",
+           "pub(crate) const N_READBACK: u32 = %d;" % len(arms),
+           "pub(crate) fn readback_doc(k: u32) -> &'static str {", "    match k {"]
+    for i, (doc, nav, cond, tag, ptag) in enumerate(arms):
+        out.append("        %d => %s," % (i, rust_str(doc)))
+    out += ['        _ => "",', "    }", "}",
+            "/// true iff every parameter of the element under test, read by the field names of the reference grammar, has the value written in the document",
+            "#[allow(clippy::all)]", "pub(crate) fn readback_check(k: u32, file: &A2lFile) -> bool {", "    match k {"]
+    for i, (doc, nav, cond, tag, ptag) in enumerate(arms):
+        out.append("        %d => { let e = &%s; %s }   // %s in %s" % (i, nav, cond, tag, ptag))
+    out += ["        _ => false,", "    }", "}",
+            "pub(crate) const N_UNK: u32 = %d;" % len(unk),
+            "/// (document with an unknown keyword directly in front of the element under test, the same document without it)",
+            "pub(crate) fn unk_doc(k: u32) -> (&'static str, &'static str) {", "    match k {"]
+    for i, (with_unknown, ref_doc, tag, ptag) in enumerate(unk):
+        out.append("        %d => (%s, %s)," % (i, rust_str(with_unknown), rust_str(ref_doc)))
+    out += ['        _ => ("", ""),', "    }", "}"]
+    return "\n".join(out) + "\n", {"readback": len(arms), "unknown_before": len(unk), "skipped": skipped}
+
+
 def rust_str(s):
     return '"' + s.replace("\\", "\\\\").replace('"', '\\"').replace("\n", "\\n") + '"'
 
@@ -583,6 +726,9 @@ if __name__ == "__main__":
     print(len(devs), collections.Counter(d["kind"] for d in devs))
     gd = gated_documents(dsl_body(open(root + "/a2lfile/src/specification_orig.rs").read()))
     print("gated", len(gd), collections.Counter(g[3] for g in gd))
+    rb, rbinfo = readback_and_unknown(dsl_body(open(root + "/a2lfile/src/specification_orig.rs").read()))
+    print("readback", rbinfo)
+    open("/var/tmp/w/verif_rb.rs", "w").write(rb)
     open("/var/tmp/w/verif_dev.rs", "w").write(deviation_module(devs) + gated_module(gd))
     import json
     json.dump(devs, open("/var/tmp/w/devs.json", "w"))
